@@ -104,7 +104,22 @@ func Run(j *job.Job, s *job.Sink) {
 			txt = strings.ReplaceAll(txt, "%IO", []string{"input", "output"}[r.Intn(2)])
 			files = append(files, map[string]string{"name": fmt.Sprintf("f%d.yang", i), "text": txt})
 		}
-		cs := map[string]any{"template": t.name, "files": files}
+		// One case in three puts the fault into the older of two loaded revisions of m: m
+		// gets revision 2019-01-01, the other modules import exactly that revision, and a
+		// clean m@2020-01-01 is loaded next to it (it holds the bare name m). Problems
+		// recorded in the tree of the older revision must be reported all the same.
+		twoRevs := r.Intn(3) == 0
+		if twoRevs {
+			for _, f := range files {
+				f["text"] = strings.Replace(f["text"], "module m { "+hdr("m"), "module m { "+hdr("m")+" revision 2019-01-01;", 1)
+				f["text"] = strings.ReplaceAll(f["text"], "import m { prefix m; }", "import m { prefix m; revision-date 2019-01-01; }")
+			}
+			newer := map[string]string{"name": "mnew.yang", "text": "module m { " + hdr("m") + " revision 2020-01-01; leaf newer { type string; } }"}
+			at := r.Intn(len(files) + 1)
+			files = append(files[:at], append([]map[string]string{newer}, files[at:]...)...)
+			s.Count("late_fault_sets_in_an_older_revision", 1)
+		}
+		cs := map[string]any{"template": t.name, "files": files, "fault_in_older_revision": twoRevs}
 		s.Current(c, cs)
 		s.Count("late_fault_sets", 1)
 		s.Count("nontrivial", 1)
